@@ -338,7 +338,7 @@ func run(ctx *core.Ctx) error {
 		"pipe scenario rows per site, and for the exploration distinct (call, outcome class, mutated slot) triples"
 	ctx.Ev.Assume("TLC; Go's runtime accounting (runtime/metrics heap allocs, getrusage CPU time, runtime.NumGoroutine); the envelope constants are calibrated, not derived")
 	ctx.Ev.Assume("beyond the enumerated wirings (N <= 3, <= 3 slots per object) and the generated chains/ladders, totality over arbitrary bytes is explored by seeded mutation, not decided")
-	ctx.Ev.Assume("worker processes run under a 16 MiB Go stack cap (screening) and a 6 GiB address space; a stack overflow is a violation only if it happens again under 256 MiB with the generated structure made 16 times longer (a recursion that grows with the input, or an endless one); an overflow of a bounded recursion (go-pdf allows 256 references x 256 direct levels) is printed as NOTE extension=bounded-recursion")
+	ctx.Ev.Assume("worker processes run under a 16 MiB Go stack cap (screening) and a 6 GiB address space; a stack overflow is a violation only if it happens again under 128 MiB with the generated structure made 8 times longer (a recursion that grows with the input, or an endless one); an overflow of a bounded recursion (go-pdf allows 256 references x 256 direct levels) is printed as NOTE extension=bounded-recursion")
 	ctx.Ev.Assume("package walker is outside the entry points C05 names: its deviations are printed as NOTE extension=walker and counted in extension_findings, never as violations")
 
 	if err := runModels(ctx); err != nil {
